@@ -1439,6 +1439,14 @@ class DB:
                         continue
                     for x in cors:
                         self.fns.pop(x.id, None)
+                if g.kind == "closure":
+                    # a closure spliced into its user (`for_each`): closures nested in it now belong to that body
+                    owners = [o for o, q in self.inlined if q == gid]
+                    if len(set(owners)) != 1:
+                        continue
+                    for x in self.fns.values():
+                        if getattr(x, "parent", None) == gid:
+                            x.parent = owners[0]
                 self.fns.pop(gid, None)
                 self.removed_helpers = getattr(self, "removed_helpers", []) + [gid]
         self._children = None
